@@ -38,12 +38,13 @@ Requests (answers):
         -> ok <committee> <publisher> <root> <siblings> <sig> <index> <shards> <nonce> | err:<class> | panic
   toproto-roundtrip: not a request (UnitFromProto(ToProto(u)) is compared through fromproto)
   preset <cfg> <pcfg> <local> <peers> -> ok | err:<class>      (new scheduler, empty processor)
-  pstep <sigok 0|1> <committee> <publisher> <root> <proof> <sig> <index> <shards> <nonce> <sender>
+  pstep <sigok 00|01|10|11> <committee> <publisher> <root> <proof> <sig> <index> <shards> <nonce> <sender>
         -> need-rs <shard|~,…>   the unit completes the build threshold: the harness answers with
            `prs none` | `prs <hex,hex,…>` (the real RecoverData on these shards), and gets the outcome
         -> handled <bcast> <built hex|none> <ended none|ok|err> | ignored | noroute | panic
            <bcast> = `-` or `idx:shard:proof:root:sig:nonce:committee:publisher` joined by `+`
-<pcfg> is three characters 0/1: wireGuard noPoison localFromPresent.
+<pcfg> is four characters 0/1: wireGuard noPoison localFromPresent keyGuard.
+<sigok> of pstep is two characters: signature verifies, publisher id embeds a key.
 <cfg> is five characters 0/1: unpadGuard rootFromPresent shardingLeafProto validatorLeafProto nonceSet.
 -/
 open Juno.Proto Juno.C19
@@ -150,8 +151,8 @@ def intStr (i : Int) : String := if i < 0 then "-" ++ toString i.natAbs else toS
 
 def pcfg? (s : String) : Option PCfg :=
   match s.toList with
-  | [a, b, c] =>
-    if [a, b, c].all (fun x => x == '0' || x == '1') then some ⟨a == '1', b == '1', c == '1'⟩ else none
+  | [a, b, c, d] =>
+    if [a, b, c, d].all (fun x => x == '0' || x == '1') then some ⟨a == '1', b == '1', c == '1', d == '1'⟩ else none
   | _ => none
 
 /-- Driver state: configuration, scheduler and routes of the validator session; processor of the
@@ -162,7 +163,7 @@ structure St where
   sched : Option Sched := none
   routes : Routes HTerm := []
   proc : Proc HTerm := Proc.empty
-  pending : Option (Bool × PUnit HTerm × Bytes) := none
+  pending : Option (Bool × Bool × PUnit HTerm × Bytes) := none
 
 /-- RS parameter of one `create`/`construct` request: the answers of the real library are part of
 the request (the model does not compute GF(2^8) arithmetic). -/
@@ -171,7 +172,7 @@ def rsOracle (parity : List Bytes) (recovered : Option (List Bytes)) : RS :=
 
 /-- Signature parameter of one request: `sign` is not evaluated (the payload is printed and signed
 on the Go side), `verify` answers with the bit computed by the real public key on the Go side. -/
-def sigOracle (ok : Bool) : SigScheme HTerm := ⟨fun _ => [], fun _ _ _ => ok⟩
+def sigOracle (ok : Bool) (hasKey : Bool := true) : SigScheme HTerm := ⟨fun _ => [], fun _ _ _ => ok, fun _ => hasKey⟩
 
 def unit? (roots : List HTerm) (s : String) : Option (Option (PUnit HTerm)) :=
   if s == "nil" then some none else
@@ -202,10 +203,11 @@ def procOutStr : ProcOut HTerm → String
 /-- Does this unit complete the build threshold of its subprocessor? Then the shards the codec
 will be asked to recover. (Mirrors the first half of `subStep`; only used to fetch the codec's
 answer for exactly these shards from the real library.) -/
-def needsCodec (s : St) (sc : Sched) (sigok : Bool) (u : PUnit HTerm) (sender : Bytes) :
+def needsCodec (s : St) (sc : Sched) (sigok hasKey : Bool) (u : PUnit HTerm) (sender : Bytes) :
     Option (List (Option Bytes)) :=
   let key := keyOf u
   if s.proc.finalized.contains key then none else
+  if (s.proc.findSub key).isNone && !hasKey then none else
   match sc.shardIndexFor key.publisher with
   | .error _ => none
   | .ok _ =>
@@ -219,9 +221,9 @@ def needsCodec (s : St) (sc : Sched) (sigok : Bool) (u : PUnit HTerm) (sender : 
         if st.count + 1 ≠ sc.k then none
         else unitShards (st.units.set u.index (some u))
 
-def runPStep (s : St) (sc : Sched) (sigok : Bool) (u : PUnit HTerm) (sender : Bytes)
+def runPStep (s : St) (sc : Sched) (sigok hasKey : Bool) (u : PUnit HTerm) (sender : Bytes)
     (rec : Option (List Bytes)) : St × String :=
-  let (p', out) := procStep s.cfg s.pcfg termFns (rsOracle [] rec) (sigOracle sigok) sc s.proc u sender
+  let (p', out) := procStep s.cfg s.pcfg termFns (rsOracle [] rec) (sigOracle sigok hasKey) sc s.proc u sender
   ({ s with proc := p', pending := none }, procOutStr out)
 
 def wireErr : WireErr → String
@@ -358,15 +360,17 @@ def step (s : St) (line : String) : St × String :=
           hexToBytes? sig, idx.toNat?, hexList? shards, nonce.toNat?, hexToBytes? sender with
     | some sc, some committee, some publisher, some root, some proof, some sig, some idx,
       some shards, some nonce, some sender =>
-      if sigok != "0" && sigok != "1" then (s, "bad-op") else
+      if !(["00", "01", "10", "11"].contains sigok) then (s, "bad-op") else
+      let so := sigok.startsWith "1"
+      let hk := sigok.endsWith "1"
       let u : PUnit HTerm := ⟨committee, publisher, root, proof, sig, idx, shards, nonce⟩
-      match needsCodec s sc (sigok == "1") u sender with
-      | some sh => ({ s with pending := some (sigok == "1", u, sender) }, "need-rs " ++ optShards sh)
-      | none => runPStep s sc (sigok == "1") u sender none
+      match needsCodec s sc so hk u sender with
+      | some sh => ({ s with pending := some (so, hk, u, sender) }, "need-rs " ++ optShards sh)
+      | none => runPStep s sc so hk u sender none
     | _, _, _, _, _, _, _, _, _, _ => (s, "bad-op")
   | ["prs", r] =>
     match s.sched, s.pending, (if r == "none" then some none else (hexList? r).map some) with
-    | some sc, some (sigok, u, sender), some rec => runPStep s sc sigok u sender rec
+    | some sc, some (sigok, hk, u, sender), some rec => runPStep s sc sigok hk u sender rec
     | _, _, _ => (s, "bad-op")
   | ["vreset", c, loc, peers] =>
     match cfg? c, hexToBytes? loc, hexList? peers with
